@@ -23,7 +23,10 @@
                            not older makes PASS_SCAN fail: nothing at all is replayed, the committed transactions
                            before it are lost when the front-end then empties the journal
      DevAsyncLastBadCommit with ASYNC_COMMIT and checksum v2/v3 every later commit-checksum failure overwrites
-                           end_transaction, so transactions whose own commit block failed are replayed          *)
+                           end_transaction, so transactions whose own commit block failed are replayed
+     DevCommitBreakContinues the two `break` statements that give up on a failed commit block only leave the switch:
+                           the scan goes on with the next log block and the same expected ID; when that block belongs
+                           to the same transaction again (a transaction filling the whole ring) PASS_SCAN never ends *)
 EXTENDS Naturals, Integers, Sequences, FiniteSets, TLC
 
 CONSTANTS L,            \* ring length (log positions 1..L)
@@ -33,7 +36,7 @@ CONSTANTS L,            \* ring length (log positions 1..L)
           Async,        \* 0 / 1
           EscSet,       \* subset of {0,1}: escape flags the generator uses
           OldTime,      \* 0 / 1: generator may give a transaction a commit time older than its predecessor
-          DevReplayPastBadTag, DevScanAbort, DevAsyncLastBadCommit
+          DevReplayPastBadTag, DevScanAbort, DevAsyncLastBadCommit, DevCommitBreakContinues
 
 VARIABLES jc,       \* configuration the recovery code reads from the journal superblock: [L, csum, async] (= CC in the generator)
           log,      \* [1..L -> block record]
@@ -100,15 +103,22 @@ ReplayTags(C, lg, b, w, np, i) ==
   LET tag == b.tags[i]
       p   == AdvL(C.L, np, i - 1)
       revoked == tag.blk \in DOMAIN w.rev /\ w.cid <= w.rev[tag.blk]        \* !tid_gt(sequence, record->sequence)
-      w1 == IF revoked THEN w
+      w1 == IF revoked THEN (IF TagOk(C, lg, tag, p) THEN w                         \* a revoked block is not even verified
+                             ELSE [w EXCEPT !.devs = @ \cup {"ReplayPastBadTag"}])
             ELSE IF ~TagOk(C, lg, tag, p)
                  THEN [w EXCEPT !.err = "EFSBADCRC", !.devs = @ \cup {"ReplayPastBadTag"}]   \* skip_write, success = -EFSBADCRC
                  ELSE [w EXCEPT !.out = [x \in DOMAIN w.out |-> IF x = tag.blk THEN Written(lg, tag, p) ELSE w.out[x]]]
   IN ReplayTags(C, lg, b, w1, np, i + 1)
 
-RECURSIVE Walk(_, _, _, _, _)
+RECURSIVE Walk(_, _, _, _, _), BreakOut(_, _, _, _, _, _, _)
+\* `break` in case JBD2_COMMIT_BLOCK: meant to end the scan; literally it leaves the switch and the loop continues
+BreakOut(C, lg, pass, w, np, why, fuel) ==
+  IF ~DevCommitBreakContinues THEN Stop(w, why)
+  ELSE LET again == lg[np].t \notin {"junk", "data"} /\ lg[np].seq = w.cid
+       IN Walk(C, lg, pass, [w EXCEPT !.pos = np, !.reason = why, !.devs = IF again THEN @ \cup {"CommitBreakContinues"} ELSE @], fuel - 1)
 Walk(C, lg, pass, w, fuel) ==
-  IF fuel = 0 \/ w.stop THEN w
+  IF w.stop THEN w
+  ELSE IF fuel = 0 THEN Fail(w, "HANG", "fuel")                                    \* the real loop would not terminate
   ELSE IF pass # "scan" /\ w.cid >= w.end THEN Stop(w, "end")                      \* tid_geq(next_commit_ID, end_transaction)
   ELSE
   LET b == lg[w.pos]  np == WrapL(C.L, w.pos + 1) IN
@@ -135,7 +145,7 @@ Walk(C, lg, pass, w, fuel) ==
                                       ELSE Stop(w, "bad csum before commit"))
                 ELSE Stop(w, "stale commit time")                                              \* ignore_crc_mismatch
          ELSE IF pass = "scan" /\ C.csum = 1 /\ w.end # 0
-                THEN [Stop(w, "commit after failed commit") EXCEPT !.failed = w.end]
+                THEN BreakOut(C, lg, pass, [w EXCEPT !.failed = w.end], np, "commit after failed commit", fuel)
          ELSE LET v1bad == pass = "scan" /\ C.csum = 1 /\ ~(b.hassum = 0 \/ b.sum = w.acc)
                   v23bad == pass = "scan" /\ V23(C) /\ b.ok = 0
                   w1 == IF pass = "scan" /\ C.csum = 1 /\ ~v1bad THEN [w EXCEPT !.acc = <<>>] ELSE w
@@ -144,7 +154,7 @@ Walk(C, lg, pass, w, fuel) ==
                     ELSE LET overw == w1.end # 0
                              w2 == [w1 EXCEPT !.end = IF overw /\ ~DevAsyncLastBadCommit THEN @ ELSE w1.cid,
                                               !.devs = IF overw /\ DevAsyncLastBadCommit THEN @ \cup {"AsyncLastBadCommit"} ELSE @]
-                         IN IF C.async = 0 THEN [Stop(w2, "commit csum") EXCEPT !.failed = w1.cid]
+                         IN IF C.async = 0 THEN BreakOut(C, lg, pass, [w2 EXCEPT !.failed = w1.cid], np, "commit csum", fuel)
                             ELSE Walk(C, lg, pass, [w2 EXCEPT !.pos = np, !.cid = @ + 1, !.last = b.time], fuel - 1)
                  ELSE Walk(C, lg, pass, [w1 EXCEPT !.pos = np, !.cid = @ + 1,
                                                    !.last = IF pass = "scan" THEN b.time ELSE @], fuel - 1)
@@ -316,7 +326,7 @@ ReplayExactOrDev == (phase = "done") => ((fs = res.final \/ res.devs # {}) /\ js
 \* evaluated in every state, before Recover is taken
 ReplayExactAlways == (nr = 1) => (Rec.fs = Final \/ Rec.devs # {})
 \* the three passes end at the same transaction (no -EIO from "recovery pass ended at ...")
-PassesAgree == (nr = 1) => Rec.err # "EIO"
+PassesAgree == (nr = 1) => Rec.err \notin {"EIO", "HANG"}
 \* ------------------------------------------------------------------------------------------------
 \* Soundness of the ground truth (checked on generator states and on every journal loaded from a trace):
 \* "valid" is exactly "every block of the transaction is in the log as written", and every block that differs
